@@ -43,7 +43,15 @@ func Scope(
 	internalDataModel *schema.ScopeSchema,
 	functions map[string]schema.Function,
 	workflowContext map[string][]byte,
-) (schema.Scope, error) {
+) (result schema.Scope, err error) {
+	defer func() {
+		// Creating a scope links its references and panics if a referenced object is not part of the scope. This
+		// happens when the inferred type contains a reference into the scope of a step, which cannot be represented.
+		if r := recover(); r != nil {
+			result = nil
+			err = fmt.Errorf("failed to create scope for inferred type (%v)", r)
+		}
+	}()
 	dataType, err := Type(data, internalDataModel, functions, workflowContext)
 	if err != nil {
 		return nil, fmt.Errorf("failed to infer data type (%w)", err)
